@@ -130,12 +130,22 @@ inductive DItem
   | clean
   deriving DecidableEq, Repr
 
-def dispRunI (arbs : List Arb) : List (Nat × Bool) → List DItem → List (Option (Bool × Bool) × Nat)
+/-- the message handlers (`DPOSNormalHandler` / `DPOSOnDutyHandler.ProcessAcceptVote`) forward a vote
+    to the dispatcher only when it names the proposal being processed. -/
+def handlerStep (arbs : List Arb) (acc : List (Nat × Bool)) (v : Vote) : List (Nat × Bool) × Bool :=
+  if v.hashOk then dispStep arbs acc v else (acc, false)
+
+def handlerFinal (arbs : List Arb) : List (Nat × Bool) → List Vote → List (Nat × Bool)
+  | acc, [] => acc
+  | acc, v :: vs => handlerFinal arbs (handlerStep arbs acc v).1 vs
+
+/-- `viaHandler = false`: votes go straight into `ProcessVote`. -/
+def dispRunI (viaHandler : Bool) (arbs : List Arb) : List (Nat × Bool) → List DItem → List (Option (Bool × Bool) × Nat)
   | _, [] => []
   | acc, .vote v :: xs =>
-    let r := dispStep arbs acc v
-    (some (r.2, hasMajority arbs.length r.1.length), r.1.length) :: dispRunI arbs r.1 xs
-  | _, .clean :: xs => (none, 0) :: dispRunI arbs [] xs
+    let r := if viaHandler then handlerStep arbs acc v else dispStep arbs acc v
+    (some (r.2, hasMajority arbs.length r.1.length), r.1.length) :: dispRunI viaHandler arbs r.1 xs
+  | _, .clean :: xs => (none, 0) :: dispRunI viaHandler arbs [] xs
 
 def dispFinalI (arbs : List Arb) : List (Nat × Bool) → List DItem → List (Nat × Bool)
   | acc, [] => acc
